@@ -124,17 +124,22 @@ Monitors(e) ==
     /\ (Mode \in {"full", "C16"} => OC16(e, prev))
 
 Step ==
-    /\ (IsEvent("Validate") \/ IsEvent("Apply"))
+    /\ (IsEvent("Validate") \/ IsEvent("Apply") \/ IsEvent("ApplyF"))
     /\ IF Mode = "full"
-       THEN /\ IF Ev.ev = "Validate" THEN L!Validate(BSet(Ev)) ELSE L!Apply(BSet(Ev))
+       THEN /\ CASE Ev.ev = "Validate" -> L!Validate(BSet(Ev))
+                 [] Ev.ev = "Apply"    -> L!Apply(BSet(Ev))
+                 [] Ev.ev = "ApplyF"   -> L!ApplyF(BSet(Ev))
             /\ last'.res = Ev.res
             /\ ObsEqualsModel(Ev.obs)
        ELSE UNCHANGED lvars
     /\ Monitors(Ev)
     /\ prev' = Ev.obs
-    /\ val' = IF Ev.ev = "Validate"
-              THEN (IF Ev.res = "ok" THEN val \cup {BSet(Ev)} ELSE val)
-              ELSE val \ {BSet(Ev)}
+    /\ val' = CASE Ev.ev = "Validate" -> (IF Ev.res = "ok" THEN val \cup {BSet(Ev)} ELSE val)
+                 [] Ev.ev = "Apply"    -> val \ {BSet(Ev)}
+                 \* a batch certified without this node: batches of this node that lost a transaction to it
+                 \* (deleted from the store) or share one with it can never be certified any more
+                 [] Ev.ev = "ApplyF"   -> { V \in val : V \cap (SeqToSet(prev.body) \ SeqToSet(Ev.obs.body)) = {}
+                                                        /\ V \cap BSet(Ev) = {} }
     /\ tin' = { x \in tin : x[1] \in SeqToSet(Ev.obs.body) }
                 \cup { <<t, prev.ainfo>> : t \in SeqToSet(Ev.obs.body) \ SeqToSet(prev.body) }
 
